@@ -54,12 +54,32 @@ func runWatch(w *Watcher, script func(notify func(changeSet))) (err error, pan a
 			pan = p
 		}
 	}()
+	ctx, cancel := context.WithCancel(context.Background())
+	defer cancel()
 	w.watch = func(ctx context.Context, notify func(changeSet)) error {
-		script(notify)
+		calls := 0
+		script(func(cs changeSet) {
+			// The context is cancelled while the OS loop still has changes to
+			// report (a receive already in flight when the stop arrives): watching
+			// has not ended until the loop returns, so they are notified as usual.
+			if calls == vWatchCancelAfter {
+				cancel()
+				func() {
+					defer func() { _ = recover() }() // outside a bubble there is nothing to wait for
+					synctest.Wait()
+				}()
+			}
+			calls++
+			notify(cs)
+		})
 		return vWatchEndErr
 	}
-	return w.Watch(context.Background()), nil
+	return w.Watch(ctx), nil
 }
+
+// vWatchCancelAfter: the Watch context is cancelled just before this notify
+// call (0-based) of the scripted loop; -1 = never.
+var vWatchCancelAfter = -1
 
 // vWatchEndErr is what the scripted OS watch loop ends with: watching ends
 // cleanly (nil) or because the OS source failed; subscribers must see their
@@ -72,6 +92,10 @@ func vSetWatchEnd(id string) {
 	vWatchEndErr = nil
 	if vlib.Hash64("end/"+id)%2 == 0 {
 		vWatchEndErr = vErrWatch
+	}
+	vWatchCancelAfter = -1
+	if h := vlib.Hash64("cancel/" + id); h%3 == 0 {
+		vWatchCancelAfter = int(h / 3 % 4)
 	}
 }
 
